@@ -147,7 +147,7 @@ func drawRecModel(r *rng.R, kind string) recModel {
 		}
 	}
 	// optionally post-process Y with an elementwise node so that the pieces flow through more than one operator
-	if r.Chance(1, 3) {
+	if !cfg.NoY && r.Chance(1, 3) {
 		e.Model.Nodes = append(e.Model.Nodes, mb.Node{Op: "Tanh", In: []string{"Y"}, Out: []string{"Yt"}})
 		e.Model.Outputs = append(e.Model.Outputs, mb.IO{Name: "Yt", NoShape: true})
 	}
@@ -370,6 +370,10 @@ func judge06(c *Case, wr *worldRun, rc *refCache) []verdict {
 		case ref.Kind == "ok":
 			wy := ref.Out[yName]
 			ycat := concatAxis(ys, s.SeqAxis)
+			if _, requested := ref.Out[yName]; !requested {
+				// Y is not among the model's outputs: only the final states can be compared
+				wy, ycat = &val.V{}, &val.V{}
+			}
 			if wy == nil || ycat == nil || len(wy.Bits) != len(ycat.Bits) {
 				add("split-differs:"+s.Kind+":Y-shape", fmt.Sprintf("the pieces' %s do not concatenate to the whole-sequence %s %v", yName, yName, wy))
 				continue
